@@ -5,7 +5,8 @@ import binlib
 import cursor
 
 import textreader_k5
-THEOREMS = ["C08bin_skip_takes_value", "C08bin_skip_equals_read", "C08bin_step_out_lands", "C08bin_position_determines_input", "C08bin_next_stays_inside", "C08bin_read_stays_inside", "tr_skip_container_frame", "tr_progress_skip_container", "tr_next_spec"]
+THEOREMS = ["C08bin_skip_takes_value", "C08bin_skip_equals_read", "C08bin_step_out_lands", "C08bin_position_determines_input", "C08bin_next_stays_inside", "C08bin_read_stays_inside", "tr_skip_container_frame", "tr_progress_skip_container", "tr_next_spec", "c08t_skip_string", "c08t_skip_symbol_quoted", "c08t_skip_long_string", "c08t_skip_blob", "c08t_skip_clob", "c08t_skip_long_clob", "c08t_skipper_tree", "c08t_skip_container_helper", "c08t_skip_value", "c08t_skip_equals_read", "c08t_settled_next", "c08t_step_out_early", "c08t_nav_tree", "c08t_nav_stream", "c08t_nav_stream_end", "c08t_full_plan", "c08t_step_in_refused", "c08t_step_out_refused", "c08t_accessor_keeps_state"]
+EXTRA_MODULES = ["C08text"]
 LEVEL = "other"
 TRUSTED_EXTRA = getattr(textreader_k5, "TRUSTED_EXTRA", [])
 EXPLANATION = ("valid binary documents (spec-derived encoder with representation freedom) x navigation programs over "
